@@ -385,3 +385,32 @@ Theorem create_no_fault : forall c1 c2 size t,
   seq_create c1 c2 (fun _ => true) size t = Some (seq_runs size t).
 Proof. exact create_no_fault_l. Qed.
 Print Assumptions create_no_fault.
+
+(* ---- the two failure layers of restoreChunk ---- *)
+(* layer 1 is altered_chunk_rejected: bytes that do not match the manifest
+   digest => ErrChunkCorrupted (damage in transit: fetch again and retry).
+   Layer 2: bytes that MATCH the manifest digest are never answered with the
+   retryable error ... *)
+Theorem digest_match_never_corrupted : forall H Hd decode root digest b st,
+  Hd b = digest -> fst (restore_chunk H Hd decode root digest b st) <> RCorrupted.
+Proof. exact digest_match_never_corrupted_l. Qed.
+Print Assumptions digest_match_never_corrupted.
+
+(* ... if they do not decode (broken snappy framing at the start or part-way,
+   no CBOR) or decode to something that does not verify against the root, the
+   answer is the proof failure, nothing is written ... *)
+Theorem matching_undecodable_is_proof_failure : forall H Hd decode root digest b st,
+  Hd b = digest ->
+  (decode b = None \/ exists p, decode b = Some p /\ verify H root p = false) ->
+  restore_chunk H Hd decode root digest b st = (RProofFail, st).
+Proof. exact matching_undecodable_is_proof_failure_l. Qed.
+Print Assumptions matching_undecodable_is_proof_failure.
+
+(* ... and the restorer abandons the checkpoint: the manifest is bad, the
+   caller must not fetch the same bytes again *)
+Theorem matching_undecodable_aborts : forall H Hd decode root digests s i b,
+  active s = true -> existsb (Nat.eqb i) (pend s) = true -> nth_error digests i = Some (Hd b) ->
+  (decode b = None \/ exists p, decode b = Some p /\ verify H root p = false) ->
+  rstep H Hd decode root digests s (EChunk i b) = (mkr false [] (db s), RProofFail).
+Proof. exact matching_undecodable_aborts_l. Qed.
+Print Assumptions matching_undecodable_aborts.
